@@ -182,6 +182,20 @@ def _check_join(plan, L, R, ctx):
     if build.snap_frame(out2) != build.snap_frame(out):
         raise Violation(f"{op}_join: a second identical call gives a different result")
     ctx.cls("op_" + op, "left0" if nl == 0 else "leftN", "right0" if nr == 0 else "rightN")
+    ctx.cls(f"keys_{len(plan['by'])}", *("keykind_" + c["kind"] for c in plan["left"]["cols"] if c["name"] in by1))
+    if plan.get("mixed"):
+        ctx.cls("key_dtypes_differ_between_sides")
+    if any(a != b for a, b in plan["by"]):
+        ctx.cls("key_names_differ")
+        if any(a in rs for a, b in plan["by"] if a != b):
+            ctx.cls("right_owns_a_column_named_like_the_left_key")
+    if any(c in ls for c in rs if c not in by2 and c != "_rb_"):
+        ctx.cls("payload_name_on_both_sides")
+    if any(x is None for col in lk + rk for x in col):
+        ctx.cls("missing_key_cell")
+    rkt = [tuple(model.ident(c[j]) for c in rk) for j in range(nr)]
+    if len(set(rkt)) < len(rkt):
+        ctx.cls("duplicate_right_keys")
     if any(x is None for x in match) and nl:
         ctx.cls("has_unmatched_left")
     if any(x is not None for x in match):
